@@ -816,6 +816,11 @@ func (m *Mon) stepC06C07(sc *StepCtx, si stepInfo) {
 			issued = append(issued, hexs(post.Requests[rid].Provider))
 		}
 		need := int(rc.ResponseThreshold)
+		if t := m.ctxs[id]; t != nil && t.Module != "" && t.NamedThreshold != 0 && int(t.NamedThreshold) != need {
+			// the threshold its module named last, should the record have lost it (a restart, say)
+			m.fail(sc, "C06", "threshold", "stored-differs-from-named@batch", "context %.16s reaches a batch with response threshold %d stored, its module named %d", id, rc.ResponseThreshold, t.NamedThreshold)
+			need = int(t.NamedThreshold)
+		}
 		if need < 1 {
 			need = 1
 		}
@@ -1806,6 +1811,16 @@ func (m *Mon) stepRestart(sc *StepCtx, si stepInfo) {
 		}
 		if !termsEqual(a, b) {
 			m.fail(sc, "C09", "terms-change-only-by-update", "restart", "context %.16s terms changed across a zero-height restart", id)
+			if a.Timeout != b.Timeout || a.RepeatedFrequency != b.RepeatedFrequency || a.RepeatedTotal != b.RepeatedTotal {
+				m.fail(sc, "C10", "schedule-as-named", "restart", "context %.16s comes out of a zero-height restart with timeout %d / frequency %d / total %d, it went in with %d / %d / %d", id, b.Timeout, b.RepeatedFrequency, b.RepeatedTotal, a.Timeout, a.RepeatedFrequency, a.RepeatedTotal)
+			}
+			if a.ResponseThreshold != b.ResponseThreshold {
+				m.fail(sc, "C12", "threshold-as-named", "restart", "context %.16s response threshold %d -> %d across a zero-height restart", id, a.ResponseThreshold, b.ResponseThreshold)
+				m.fail(sc, "C06", "threshold", "changed@restart", "context %.16s response threshold %d -> %d across a zero-height restart", id, a.ResponseThreshold, b.ResponseThreshold)
+			}
+			if !a.ServiceFeeCap.IsEqual(b.ServiceFeeCap) || len(a.Providers) != len(b.Providers) {
+				m.fail(sc, "C06", "eligible-set", "terms-changed@restart", "context %.16s providers / fee cap changed across a zero-height restart", id)
+			}
 		}
 	}
 	for id := range post.Contexts {
@@ -1822,6 +1837,30 @@ func (m *Mon) stepRestart(sc *StepCtx, si stepInfo) {
 			// (the disabled time of an available binding has no meaning and the re-written genesis
 			// of a restart step deliberately changes it)
 			m.fail(sc, "C04", "no-failure-no-slash", "restart", "binding %q went from deposit %s available=%v to deposit %s available=%v across a zero-height restart although no request failed", bk, coinsAmt(b.Deposit), b.Available, coinsAmt(pb.Deposit), pb.Available)
+			if pb.Available != b.Available {
+				// whether a binding takes requests is its owner's decision (or a slash's), not the import's
+				m.fail(sc, "C06", "eligible-set", "availability-changed@restart", "binding %q is available=%v after a zero-height restart, was %v", bk, pb.Available, b.Available)
+				m.fail(sc, "C14", "min-deposit", "availability-changed@restart", "binding %q is available=%v after a zero-height restart, was %v", bk, pb.Available, b.Available)
+			}
+		}
+	}
+	// the parameters in force are part of the state that survives
+	if pb, qb := pbz(&pre.Params), pbz(&post.Params); !bytes.Equal(pb, qb) {
+		m.fail(sc, "C19", "import-complete", "params@restart", "module parameters differ after a zero-height restart: %s -> %s", paramsDesc(pre.Params), paramsDesc(post.Params))
+		if !pre.Params.SlashFraction.Equal(post.Params.SlashFraction) {
+			m.fail(sc, "C04", "slash-amount", "fraction-changed@restart", "the slash fraction is %s after a zero-height restart, was %s", post.Params.SlashFraction, pre.Params.SlashFraction)
+		}
+		if !pre.Params.ServiceFeeTax.Equal(post.Params.ServiceFeeTax) {
+			m.fail(sc, "C02", "R2-good-response", "tax-changed@restart", "the service fee tax is %s after a zero-height restart, was %s", post.Params.ServiceFeeTax, pre.Params.ServiceFeeTax)
+		}
+		if pre.Params.ArbitrationTimeLimit != post.Params.ArbitrationTimeLimit || pre.Params.ComplaintRetrospect != post.Params.ComplaintRetrospect {
+			m.fail(sc, "C03", "S2-refund-preconditions", "periods-changed@restart", "the refund waiting periods changed across a zero-height restart")
+		}
+		if pre.Params.MaxRequestTimeout != post.Params.MaxRequestTimeout {
+			m.fail(sc, "C08", "expiry-height-at-issue", "max-timeout-changed@restart", "the maximum request timeout is %d after a zero-height restart, was %d", post.Params.MaxRequestTimeout, pre.Params.MaxRequestTimeout)
+		}
+		if !pre.Params.MinDeposit.IsEqual(post.Params.MinDeposit) || pre.Params.MinDepositMultiple != post.Params.MinDepositMultiple {
+			m.fail(sc, "C14", "min-deposit", "terms-changed@restart", "the minimum-deposit terms changed across a zero-height restart")
 		}
 	}
 	if !post.Supply.Equal(pre.Supply) {
